@@ -116,7 +116,21 @@ def generate(rng, tier, idx):
         files.append({"path": (d2 + "/" if d2 else "") + "tpl.ucg", "role": "entry", "uid": files[-1]["uid"], "shape": "int", "out": conv,
                       "imports": [{"target": base + 1, "spelling": "dot"}], "std": False, "fail": None, "untyped_use": True, "symlink_to": base + 2})
         n = len(files)
-    world = {"files": files, "strict": not rng.chance(12), "fault": None, "fsize": None, "creation": rng.shuffle(list(range(n)))}
+    if rng.chance(8):
+        # a file that fails at the bottom of a deep module recursion, and a healthy file that recurses deeply itself: whatever the failure
+        # leaves behind in the process (depth counters, stacks) must not make the healthy one fail
+        files.append({"path": "deep_fail.ucg", "role": "failing", "uid": "df" + rng.token(5), "shape": "int", "out": "json", "imports": [], "std": False,
+                      "fail": "deep_recursion_fails"})
+        files.append({"path": "deep_ok.ucg", "role": "entry", "uid": "dk" + rng.token(5), "shape": "int", "out": "json", "imports": [], "std": False,
+                      "fail": None, "deep": True})
+        n = len(files)
+    strict_world = not rng.chance(12)
+    if not strict_world and rng.chance(60):
+        # under --no-strict: a file that builds only because lookups are lenient, whichever way the invocation names its inputs
+        files.append({"path": "needs_lenient.ucg", "role": "failing", "uid": "nl" + rng.token(5), "shape": "int", "out": "json", "imports": [], "std": False,
+                      "fail": rng.choice(["strict_only_field", "strict_only_env"])})
+        n = len(files)
+    world = {"files": files, "strict": strict_world, "fault": None, "fsize": None, "creation": rng.shuffle(list(range(n)))}
     if rng.chance(25):
         outs = [i for i, f in enumerate(files) if f["out"]]
         kind = rng.choice(FAULT_KINDS)
@@ -197,6 +211,10 @@ def render_file(world, i, root_abs):
         t = files[imp["target"]]
         L.append('let i%d = import "%s";' % (k, spelled(world, f, t, imp["spelling"], root_abs)))
         deps.append("[i%d.id] + i%d.deps" % (k, k))
+        if imp["spelling"] == "backslash" and "/" in os.path.relpath(t["path"], os.path.dirname(f["path"]) or ".") and t["shape"] == "int":
+            # the static checker does not follow an import written with Windows-style separators, so this never-evaluated right-hand side
+            # (an integer where a boolean belongs) is nobody's business - unless a shape cached for another spelling is applied to it
+            L.append("let lenient%d = false && i%d.n;" % (k, k))
         if f.get("untyped_use"):
             calc.append("i%d.n" % k)
         else:
